@@ -4,12 +4,12 @@ import Qv.Model.Results
 values that may be `±inf` (model side of the generated-source tie of C13)
 
 `Qv.Model.Results` (namespace `Qv.Res`, the model the theorems of `Qv/Props/C13.lean` are about) keeps values in
-`Rat`.  The Python code compares `value`s with `<`, and a `float` value may be `inf` (the annealers return
+`EVal` (ℚ ∪ {±inf}; it was `Rat` when this file was written — `Num` below is the same line, and `emb` is now a bijection).  The Python code compares `value`s with `<`, and a `float` value may be `inf` (the annealers return
 Python floats) — the seeded change C13-8 (`float('inf')` sentinel in `_recompute_best`) differs from the code
 only there.  This file repeats the definitions of `Qv.Res` over `Num` (a rational or `±inf`; `nan` is not
 modelled), one function per Python method, so that the definitions generated from
 `qubovert/sim/_anneal_results.py` (`Qv/Gen/SourceResults.lean`) can be proved *equal* to them on every input
-(`Qv/Proofs/GenEq/Results.lean`).  `Qv/Proofs/ResultsX.lean` proves that on finite values (`emb`) every function
+(`Qv/Proofs/GenEq/Results.lean`).  `Qv/Proofs/ResultsX.lean` proves that through `emb` every function
 here is the function of `Qv.Res` (`ResX.f (emb x) = emb (Res.f x)`), which carries the tie to the theorems of C13.
 Core Lean only.
 -/
@@ -236,9 +236,15 @@ def Coll.convertStates (s : Coll) (f : PState → PState) : Coll :=
 def Coll.toBoolean (s : Coll) : Except Err Coll := do pure (construct (← mapE Result.toBoolean s.items))
 def Coll.toSpin (s : Coll) : Except Err Coll := do pure (construct (← mapE Result.toSpin s.items))
 
-/-! ## the embedding of `Qv.Res` (finite values) -/
+/-! ## the embedding of `Qv.Res` (all values: `Res.Result.value : EVal` is ℚ ∪ {±inf}, the same line as `Num`) -/
 
-def emb (r : Res.Result) : Result := ⟨r.state, .fin r.value, r.spin⟩
+/-- the order isomorphism `EVal → Num` (`Qv/Model/EVal.lean` is the value type of `Qv.Res`) -/
+def ofEVal : EVal → Num
+  | .ninf => .ninf
+  | .fin q => .fin q
+  | .pinf => .pinf
+
+def emb (r : Res.Result) : Result := ⟨r.state, ofEVal r.value, r.spin⟩
 def embC (s : Res.Coll) : Coll := ⟨s.items.map emb, s.best.map emb⟩
 
 end Qv.ResX
